@@ -1072,7 +1072,10 @@ async def op_collect(env, ctx, step):
         raise
     finally:
         for act in acts:
-            act.close()
+            # (only what never got to run is discarded here; stopping a started activity is
+            # the library's job - closing it from here would hide that it was not stopped)
+            if inspect.getcoroutinestate(act) == inspect.CORO_CREATED:
+                act.close()
 
 
 def _track_first(ctx, agen):
@@ -1101,7 +1104,10 @@ async def op_first(env, ctx, step):
             raise
     finally:
         for act in acts:
-            act.close()
+            # (only what never got to run is discarded here; stopping a started activity is
+            # the library's job - closing it from here would hide that it was not stopped)
+            if inspect.getcoroutinestate(act) == inspect.CORO_CREATED:
+                act.close()
     return got
 
 
@@ -1156,12 +1162,20 @@ async def op_watch(env, ctx, step):
 async def op_nested(env, ctx, step):
     """a complete simulation run synchronously from inside an activity (nested run()); the
     enclosing simulation goes on afterwards"""
-    async def inner():
+    async def inner(levels):
         await (time + step['d'])
+        if levels > 1:
+            # ... which runs yet another simulation from inside one of its activities
+            started = time.now
+            usim.run(inner(levels - 1), start=step.get('start', 0) + 1000)
+            if time.now != started:
+                raise AssertionError('clock of a nested simulation moved from %r to %r while '
+                                     'a simulation nested in it ran' % (started, time.now))
+            await (time + step['d'])
         await instant
 
     before = time.now
-    usim.run(inner(), start=step.get('start', 0))
+    usim.run(inner(step.get('levels', 1)), start=step.get('start', 0))
     env.sess.stats['nested_runs'] += 1
     return time.now == before
 
